@@ -6,7 +6,7 @@ from lib import common
 from lib.vals import coq_str, coq_list
 
 THEOREMS = ["C14_every_rebuild_answers_like_a_fresh_process", "C14_cache_stays_coherent",
-            "C14_refuted_when_a_failed_parse_keeps_the_old_module", "C14_nonvacuous"]
+            "C14_refuted_when_a_failed_parse_keeps_the_old_module", "C14_refuted_for_created_modules", "C14_nonvacuous"]
 IMPORTS = "From Beff Require Import Model.Cases."
 SETTINGS = {"string_formats": [], "number_formats": []}
 
